@@ -100,6 +100,20 @@ EDITS = [
      '    expected = degree + num_ctrlpts + 1\n    if len(knot_vector) != expected:\n        return False', ['knotvector.check'], 'quiet'),
     ('linalg.py', '        delta = stop - start', '        delta = -(start - stop)', ['linalg.linspace'], 'quiet'),
     ('compatibility.py', '        temp = [float(c * w) for c in pt]', '        temp = [float(w * c) for c in pt]', ['compatibility.combine_ctrlpts_weights'], 'quiet'),
+    # ---- _linalg.doolittle (breaking, then harmless)
+    ('_linalg.py', 'matrix_u[i][k] = float(matrix_a[i][k] - sum([matrix_l[i][j] * matrix_u[j][k] for j in range(0, i)]))',
+     'matrix_u[i][k] = float(matrix_a[i][k] - sum([matrix_l[i][j] * matrix_u[j][k] for j in range(1, i)]))', ['_linalg.doolittle'], 'caught'),
+    ('_linalg.py', 'matrix_l[k][i] = float(matrix_a[k][i] - sum([matrix_l[k][j] * matrix_u[j][i] for j in range(0, i)]))',
+     'matrix_l[k][i] = float(matrix_a[i][k] - sum([matrix_l[k][j] * matrix_u[j][i] for j in range(0, i)]))', ['_linalg.doolittle'], 'caught'),
+    ('_linalg.py', '                    matrix_l[k][i] /= float(matrix_u[i][i])', '                    matrix_l[k][i] /= float(matrix_u[k][k])', ['_linalg.doolittle'], 'caught'),
+    ('_linalg.py', '                matrix_l[i][i] = 1.0', '                matrix_l[i][i] = 0.0', ['_linalg.doolittle'], 'caught'),
+    ('_linalg.py', '        for k in range(i, len(matrix_a)):', '        for k in range(i, len(matrix_a) - 1):', ['_linalg.doolittle'], 'caught'),
+    ('_linalg.py', 'matrix_u[i][k] = float(matrix_a[i][k] - sum([matrix_l[i][j] * matrix_u[j][k] for j in range(0, i)]))',
+     'matrix_u[i][k] = float(matrix_a[i][k] - sum([matrix_l[i][j] * matrix_u[j][i] for j in range(0, i)]))', ['_linalg.doolittle'], 'caught'),
+    ('_linalg.py', 'matrix_u[i][k] = float(matrix_a[i][k] - sum([matrix_l[i][j] * matrix_u[j][k] for j in range(0, i)]))',
+     'matrix_u[i][k] = float(-sum([matrix_l[i][j] * matrix_u[j][k] for j in range(i)]) + matrix_a[i][k])', ['_linalg.doolittle'], 'quiet'),
+    ('_linalg.py', '    for i in range(0, len(matrix_a)):\n        for k in range(i, len(matrix_a)):',
+     '    size = len(matrix_a)\n    for i in range(0, size):\n        for k in range(i, size):', ['_linalg.doolittle'], 'quiet'),
 ]
 
 
@@ -141,7 +155,7 @@ def main():
     try:
         from concurrent.futures import ThreadPoolExecutor
         items = [(k, e) for k, e in enumerate(EDITS) if not only or str(k) in only]
-        with ThreadPoolExecutor(int(os.environ.get('VERIF_NPROC', '12'))) as ex:
+        with ThreadPoolExecutor(int(os.environ.get('VERIF_NPROC', '8'))) as ex:
             for row, good in ex.map(one, items):
                 rows.append(row)
                 ok = ok and good
